@@ -1004,7 +1004,7 @@ def run(ctx):
         "a well-formed cutting (PsiSectionsBase!WellFormedPay): unit start iff the first octet of a section is in the payload, pointer field = octets before it, stuffing only after the end of a section, table_id /= 0xff",
         "when the merger outputs a section is not constrained, only the order during the stream and completeness at its end",
         "splitter: filters with bits outside their mask and sections shorter than the filter are unspecified (either outcome accepted); the order of delivery among outputs is free",
-        "the flow definition of the joiner (octet rate, section interval, latency) is not part of the statement",
+        "the VALUE of the flow definition of the joiner (octet rate, section interval, latency) is not part of the statement (that an update of it, applied or refused, does not stop the forwarding is: JFd)",
     ]
     ctx.trusted += ["TLC", "harness/replay_psi.c (command interpreter, serialiser byte_at cross-checked against the module, identification of outputs by octet comparison)",
                     "harness/shim/bitstream/mpeg/psi.h (clean-room biTStream shim: PSI_HEADER_SIZE, PSI_PRIVATE_MAX_SIZE, psi_get_length, psi_validate)",
